@@ -238,6 +238,71 @@ func init() {
 		}
 	})
 	// concurrent spawns, aliases and references: identifiers are unique
+	// a spawn-with-name that loses the name, racing with ordinary spawns: no process id is handed out twice
+	c06Race("race-failed-spawnregister-vs-spawn", 2, 3, func(w *World) {
+		w.Setup("holder", func() {
+			if _, err := w.n.SpawnRegister("held", func() gen.ProcessBehavior { return &probe{} }, gen.ProcessOptions{}, probeCfg{rec: &rec{}}); err != nil {
+				panic(err)
+			}
+		})
+		var ids []gen.PID
+		var lostErr error
+		w.ex.Thread("LOSE", func() {
+			_, lostErr = w.n.SpawnRegister("held", func() gen.ProcessBehavior { return &probe{} }, gen.ProcessOptions{}, probeCfg{rec: &rec{}})
+		})
+		for i := 0; i < 2; i++ {
+			i := i
+			w.ex.Thread(fmt.Sprintf("SP%d", i), func() {
+				nm := fmt.Sprintf("N%d", i)
+				r := &rec{name: nm}
+				w.recs[nm] = r
+				pid, err := w.n.Spawn(func() gen.ProcessBehavior { return &probe{} }, gen.ProcessOptions{}, probeCfg{rec: r})
+				if err == nil {
+					ids = append(ids, pid)
+					w.pids[nm] = pid
+				}
+			})
+		}
+		w.Check = func() {
+			if lostErr != gen.ErrTaken {
+				w.ex.Fail("registry-result", "SpawnRegister under a name that is held returned %v", lostErr)
+			}
+			if len(ids) == 2 && ids[0] == ids[1] {
+				w.ex.Fail("identifier-repeated", "two processes were spawned with the same process id %s", ids[0])
+			}
+			for _, pid := range ids {
+				if _, err := w.n.ProcessInfo(pid); err != nil {
+					w.ex.Fail("spawned-process-missing", "Spawn returned %s, but the process table does not know it: %v", pid, err)
+				}
+			}
+		}
+	})
+	// a monitor/link request on an alias racing with the termination of its owner: afterwards the dead alias is nobody's target
+	for _, rel := range []string{"link", "monitor"} {
+		rel := rel
+		c06Race("race-"+rel+"-alias-vs-owner-kill", 1, 2, func(w *World) {
+			w.spawnProbe("T", probeCfg{}, gen.ProcessOptions{})
+			var alias gen.Alias
+			w.Do("T", func(p *probe) error { a, err := p.CreateAlias(); alias = a; return err })
+			w.spawnProbe("O", probeCfg{trap: true}, gen.ProcessOptions{})
+			w.ex.Thread("REQ", func() {
+				w.n.Send(w.pids["O"], doMsg{func(p *probe) error {
+					if rel == "link" {
+						p.LinkAlias(alias)
+					} else {
+						p.MonitorAlias(alias)
+					}
+					return nil
+				}})
+			})
+			w.ex.Thread("K", func() { w.n.Kill(w.pids["T"]) })
+			w.Check = func() {
+				if c := w.n.targetManager.GetConsumersForTarget(alias); len(c) > 0 {
+					w.ex.Fail("relation-on-dead-target", "the owner of alias %s has terminated, the alias is still a relation target of %v", alias, c)
+				}
+			}
+		})
+	}
 	c06Race("race-identifiers", 1, 2, func(w *World) {
 		w.spawnProbe("C0", probeCfg{}, gen.ProcessOptions{})
 		w.spawnProbe("C1", probeCfg{}, gen.ProcessOptions{})
